@@ -207,10 +207,12 @@ def walkGet (addr : Bool) : List Nat → Ty → Bool → Val → Outcome (Ty × 
       match fieldAt st i with
       | none => Outcome.panic "reflect.Field"
       | some fd => walkGet addr rest fd.ty (addr && fd.exported) (recGet sv i)
-    match t, v with
-    | Ty.ptr e, Val.ptr none => if canSet then step e (zero e) else Outcome.err "ptr-unexported"
-    | Ty.ptr e, Val.ptr (some x) => step e x
-    | _, _ => step t v
+    match t with
+    | Ty.ptr e =>
+      match v with
+      | Val.ptr (some x) => step e x
+      | _ => if canSet then step e (zero e) else Outcome.err "ptr-unexported"   -- nil: allocate
+    | _ => step t v
 
 /-- write `x` at `path` (after the same walk has succeeded) -/
 def walkSet : List Nat → Ty → Val → Val → Val
@@ -220,10 +222,12 @@ def walkSet : List Nat → Ty → Val → Val → Val
       match fieldAt st i with
       | none => sv
       | some fd => recSet sv i (walkSet rest fd.ty (recGet sv i) x)
-    match t, v with
-    | Ty.ptr e, Val.ptr none => Val.ptr (some (step e (zero e)))
-    | Ty.ptr e, Val.ptr (some y) => Val.ptr (some (step e y))
-    | _, _ => step t v
+    match t with
+    | Ty.ptr e =>
+      match v with
+      | Val.ptr (some y) => Val.ptr (some (step e y))
+      | _ => Val.ptr (some (step e (zero e)))
+    | _ => step t v
 
 /-! ### numbers -/
 
